@@ -67,7 +67,8 @@ def _other(hdr: dict, k: str) -> int:
 
 
 # --------------------------------------------------------------------------------------------------
-def drive_src_random(rng: random.Random, tid: int, default_fh: bool = True, **fixed) -> dict:
+def drive_src_random(rng: random.Random, tid: int, default_fh: bool = True, leave: float = 0.07, filechange: bool = True,
+                     **fixed) -> dict:
     """A lone SourceHandler fed adversarial inputs: any PDU kind, ids, directions, NAK ranges, clock jumps,
     right/wrong cancels, premature puts, deliberately unretrieved PDUs, file changes, several transactions."""
     cfg = random_cfg(rng, default_fh, **fixed)
@@ -102,7 +103,7 @@ def drive_src_random(rng: random.Random, tid: int, default_fh: bool = True, **fi
     put()
     for _ in range(rng.randint(5, 45)):
         r = rng.random()
-        take = None if rng.random() < 0.93 else rng.choice([0, 1])
+        take = None if rng.random() >= leave else rng.choice([0, 1])
         hdr = wire_hdr(cfg, "TS", seq(), mode_now)
         if rng.random() < 0.06:
             k = rng.choice(["dir", "sv", "dv", "qv"])
@@ -151,7 +152,7 @@ def drive_src_random(rng: random.Random, tid: int, default_fh: bool = True, **fi
             w.call("S", "cancel", rng.random() < 0.8)
         elif r < 0.97:
             put()
-        elif r < 0.985 and not cfg["mdOnly"]:
+        elif r < 0.985 and not cfg["mdOnly"] and filechange:
             # the source file grows while it is being sent (C09: the EOF checksum covers the bytes sent)
             extra = bytes(rng.randrange(256) for _ in range(rng.randint(1, 4)))
             cur = w.srcf.read_bytes() if w.srcf.exists() else b""
@@ -249,9 +250,81 @@ def drive_dst_random(rng: random.Random, tid: int, default_fh: bool = True, **fi
 
 
 # ---- entry points for harness/flow.py (seeded, keyword-only) ----
-def src_random(tid: int, seed: int, default_fh: bool = True, **fixed) -> dict:
-    return drive_src_random(random.Random(seed), tid, default_fh, **fixed)
+def src_random(tid: int, seed: int, default_fh: bool = True, leave: float = 0.07, filechange: bool = True, **fixed) -> dict:
+    return drive_src_random(random.Random(seed), tid, default_fh, leave, filechange, **fixed)
 
 
 def dst_random(tid: int, seed: int, default_fh: bool = True, **fixed) -> dict:
     return drive_dst_random(random.Random(seed), tid, default_fh, **fixed)
+
+
+def src_nominal(tid: int, seed: int) -> dict:
+    """A lone SourceHandler, no inbound PDUs: the PDU stream of one or more put requests (C07 / C19), larger files,
+    segment lengths and packet lengths around the break points, all widths."""
+    rng = random.Random(seed)
+    idw = rng.choice([1, 2, 4, 8])
+    dw = rng.choice([idw, idw, 1, 2])
+    qw = rng.choice([1, 2, 4])
+    crc = rng.random() < 0.4
+    base = 4 + 2 * max(idw, dw) + qw + 4 + (2 if crc else 0)
+    max_pkt = rng.choice([base + 8, base + 9, base + 20, 64 + base, 512])
+    seg = rng.choice([0, 1, 3, 7, 8, 9, 20, 64, 1000])
+    eff = max_pkt - base if seg == 0 or seg >= max_pkt - base else seg
+    size = rng.choice([0, 1, eff - 1, eff, eff + 1, 2 * eff, 2 * eff + 1, 3 * eff + 2, rng.randint(0, 4 * eff)])
+    size = max(0, min(size, 300))
+    cfg = mkcfg(mode=rng.choice(["ACK", "UNACK"]), closure=rng.random() < 0.5, segLen=seg, maxPkt=max_pkt, crc=crc,
+                chk=rng.choice(["CRC32", "CRC32C", "NULL", "MODULAR"]), sIdW=idw, dIdW=dw, seqW=qw,
+                sId=rng.choice([1, 77]), dId=rng.choice([2, 200]), seq0=rng.choice([0, 9, 254, 255]),
+                file=[rng.randrange(256) for _ in range(size)], mdOnly=rng.random() < 0.08,
+                putMode=rng.choice(["none", "none", "ACK", "UNACK"]), putClosure=rng.choice(["none", "none", "true", "false"]),
+                msgs=rng.choice([[], [], [[1, 2, 3]]]))
+    w = World(cfg)
+    for _ in range(rng.choice([1, 1, 2, 3])):
+        w.call("S", "put", w.put_request())
+        for _ in range(size + 12):
+            e = w.call("S", "fsm", None)
+            if any(o["t"] == "EOF" for o in e["out"]) or w.src.state.name == "IDLE":
+                break
+        w.call("S", "fsm", None)
+        if w.src.state.name != "IDLE":
+            w.call("S", "reset")
+    tr = w.trace(tid, "src")
+    w.cleanup()
+    return tr
+
+
+def solo_replay(tid: int, cfg: dict, side: str, ins: list) -> dict:
+    """Replays one input sequence of the adversarial single-handler model (spec/Solo.tla) into a lone real handler."""
+    from pathlib import Path
+
+    from spacepackets.cfdp.tlv import MessageToUserTlv
+    from spacepackets.util import ByteFieldGenerator
+
+    from cfdppy.request import PutRequest
+    from world import MODE
+    w = World(cfg)
+    try:
+        for i in ins:
+            k, a = i["k"], i["a"]
+            if k == "tick":
+                Clock.now += a["dt"]
+            elif k == "fsm":
+                w.call(side, "fsm", None if a["t"] == "none" else w.conc(a), wrej=bool(i.get("w")))
+            elif k == "cancel":
+                w.call(side, "cancel", a["right"])
+            elif k == "put":
+                if a["mdOnly"]:
+                    sf = df = None
+                else:
+                    sf = w.srcf if a["exists"] else w.sdir / "missing.bin"
+                    df = w.dstf
+                did = ByteFieldGenerator.from_int(a["dIdW"], a["dId"] if a["known"] else 99)
+                w.call(side, "put", PutRequest(destination_id=did, source_file=sf, dest_file=df,
+                                               trans_mode=None if a["mode"] == "none" else MODE[a["mode"]],
+                                               closure_requested=None if a["closure"] == "none" else a["closure"] == "true",
+                                               msgs_to_user=[MessageToUserTlv(bytes(m)) for m in a["msgs"]] or None))
+            else:
+                raise ValueError(k)
+        return w.trace(tid, "src" if side == "S" else "dst", sched=ins)
+    finally:
+        w.cleanup()
